@@ -6,7 +6,7 @@
    replayed on the rules-of-chess specification (cold and warm TT, with and without history). *)
 From Coq Require Import NArith ZArith List Bool String.
 From JV Require Import Gen.Consts Model.Chess Model.Eval Model.TT Model.Search Model.SearchChess Model.Monitors
-     Proofs.SearchBalance Proofs.SearchOutputs.
+     Proofs.SearchBalance Proofs.SearchOutputs Proofs.SearchPV Proofs.MoveGenProofs.
 Import ListNotations.
 
 Theorem C12_monotone : forall pollp stop_at bypass g depth t rt ri r e s,
@@ -32,6 +32,29 @@ Theorem C12_format : forall score mate depth nodes pv,
    fold_right (fun m acc => to_uci m ++ " " ++ acc) "" pv)%string.
 Proof. reflexivity. Qed.
 
+(* move_eqb is reflexive (needed to recognise the initial null move) *)
+Lemma move_eqb_refl : forall m, move_eqb m m = true.
+Proof. intros m. unfold move_eqb. rewrite !N.eqb_refl, !Bool.eqb_reflx. reflexivity. Qed.
+
+(* a line of moves, each generated in the position it is played from and accepted by make_search_move *)
+Definition chess_line_ok := line_ok game move generate_moves c_make.
+Definition chess_out_ok := out_ok game move generate_moves c_make is_legal.
+
+(* For every position (no well-formedness needed), depth, TT content (cold or warm), history, poll predicate and stop schedule:
+   the PV of every info line is a line of generated moves accepted by make, played from the searched position; and the best move
+   is a generated move accepted by make, or the first move passing is_legal, or no move passes is_legal. *)
+Theorem C12_pv_legal : forall pollp stop_at bypass g depth t rt ri,
+  match chess_search pollp stop_at bypass g depth t rt ri with
+  | SDone r _ _ => Forall (chess_out_ok g) r
+  | SFuel => True
+  end.
+Proof.
+  intros. unfold chess_search, chess_out_ok.
+  apply (search_outputs_legal game move generate_moves c_make null_move evaluate (fun g => is_in_check g (white g)) hash c_half100
+           move_eqb mcap c_promo c_hidx c_cap_score NULL_MOVE is_legal pollp stop_at bypass move_eqb_refl).
+Qed.
+
+(* what remains for the rules-level statement: generated-and-made = legal under the rules (C01_full) *)
 Definition C12_pv_legal_full : Prop := forall pollp stop_at bypass g depth t hist,
   Abs.wf g = true -> keyok_b g = true ->
   match chess_search pollp stop_at bypass g depth t (app hist (repeat 0%N (1000 - List.length hist))) (List.length hist) with
@@ -42,3 +65,4 @@ Definition C12_pv_legal_full : Prop := forall pollp stop_at bypass g depth t his
 Print Assumptions C12_monotone.
 Print Assumptions C12_monotone_meaning.
 Print Assumptions C12_format.
+Print Assumptions C12_pv_legal.
